@@ -156,6 +156,12 @@ def quiet (s : State) (n : Nat) : Bool :=
 def stepLine (s : State) (line : String) : State × String :=
   match line.splitOn " " with
   | ["init"] => (State.init, "ok")
+  | "vn" :: names =>
+    -- `validName` of every name on the line; a name is its code points joined by ',' ("-" = the empty name)
+    let one (w : String) : Char :=
+      let cps := if w = "-" then [] else (w.splitOn ",").map (fun x => Char.ofNat (x.toNat?.getD 0))
+      if validName cps then '1' else '0'
+    (s, "vn " ++ String.ofList (names.map one))
   | "begin" :: c :: t :: rest =>
     match c.toNat?, t.toNat?, parseOp rest with
     | some c, some t, some o => doAct s (.begin c t o)
